@@ -896,6 +896,14 @@ CORPUS = [
                   ["r", None, lit(b"r"), 0, {}]]},
     # the open finding `roundtrip-double-prefix`: an unknown cap with two alleged-prefixes
     {"children": [["x", None, (b"ro.ro.URI:MDMF:sackjepwslelfdhcjjccaglbia:m7zimvc4h3shncye5ececu3ygwztma7lnuirgm4z6x55x7dx6jfa").hex(), 0, {}]]},
+    # short unknown-format write caps (1, 15, 16, 17 bytes) next to read caps: the rwcapdata field is then shorter
+    # than salt + one cipher block + MAC, and must still be decrypted (seeded C19-e)
+    {"children": [["s1", b"x".hex(), b"lafs://r1".hex(), 0, {}, ["unknown", "unknown"]],
+                  ["s15", (b"y" * 15).hex(), lit(b"s15"), 0, {"k": 1}, ["unknown", "known-ro:lit"]],
+                  ["s16", (b"z" * 16).hex(), b"lafs://r16".hex(), 0, {}, ["unknown", "unknown"]],
+                  ["s17", (b"w" * 17).hex(), b"ro.lafs://r17".hex(), 0, {}, ["unknown", "ro.unknown"]],
+                  ["s3", b"x7w".hex(), b"URI:SSK-RO:kvf5cqsq5tyhojt7j63yvmshgu:rbnuw7wbbmf2k4kgapbbxgb6j6dyvnj4qxclwf7twwgzu6ewsg5q".hex(),
+                   0, {}, ["unknown", "known-ro:ssk-ro"]]]},
     # a future-format write cap next to a read cap of a known format
     {"children": [["fut", b"lafs://future_w".hex(), b"URI:SSK-RO:kvf5cqsq5tyhojt7j63yvmshgu:rbnuw7wbbmf2k4kgapbbxgb6j6dyvnj4qxclwf7twwgzu6ewsg5q".hex(),
                    0, {"k": 1}, ["unknown", "known-ro:ssk-ro"]]]},
